@@ -482,3 +482,117 @@ def chain_programs(seed=0, compatible_cases=False, big=False):
                         body.append(A.Label("AFTER"))
                     body += [A.Op(inst.op("after"), []), A.Ctrl("hold")]
                     yield ("chain", kinds, negs, else_kind), A.Program([A.Routine("def", 0, body)])
+
+
+LENGTH_BLOCKS = ("switch", "switch_default", "if_else", "if_elseif", "if_elseif_else", "switch3", "switch_fallthrough")
+LENGTH_PLACEMENTS = ("in_forever", "before_forever", "in_while", "before_while", "in_for", "in_forever_after_op",
+                     "in_while_in_forever", "in_if_in_forever", "after_forever_with_break", "in_forever_with_break")
+
+
+def length_programs(seed=0, compatible_cases=True, max_len=6):
+    """G-lengths: a switch / if whose branch bodies have different lengths (0..2 against 0..max_len, both orders), as the
+    body of a loop or directly in front of a loop.  The decompiler's searches advance all branches of a block one edge
+    per round, so which branch reaches a join (or laps a loop) first depends on the lengths."""
+    inst = Instantiator(seed, compatible_cases)
+
+    def ops(n):
+        return [A.Op(inst.op(), []) for _ in range(n)]
+
+    def block(kind, l1, l2):
+        if kind.startswith("switch"):
+            items = [A.SwitchItem(inst.case_header(), ops(l1) + [A.Ctrl("break")]),
+                     A.SwitchItem(inst.case_header(), ops(l2) + [A.Ctrl("break")])]
+            if kind == "switch_default":
+                items.append(A.SwitchItem(None, ops(1) + [A.Ctrl("break")]))
+            if kind == "switch3":
+                items.append(A.SwitchItem(inst.case_header(), ops(1) + [A.Ctrl("break")]))
+                items.append(A.SwitchItem(None, ops(2) + [A.Ctrl("break")]))
+            if kind == "switch_fallthrough":
+                # first case falls through into the second
+                items[0] = A.SwitchItem(items[0].header, items[0].body[:-1])
+            return A.Switch(inst.switch_header(), items)
+        if kind == "if_else":
+            return A.If([A.IfBranch(False, [inst.cond()], ops(l1))], ops(l2))
+        if kind == "if_elseif":
+            return A.If([A.IfBranch(False, [inst.cond()], ops(l1)), A.IfBranch(False, [inst.cond()], ops(l2))], None)
+        return A.If([A.IfBranch(False, [inst.cond()], ops(l1)), A.IfBranch(True, [inst.cond()], ops(l2))], ops(1))
+    pairs = []
+    for a in (0, 1, 2):
+        for b in range(0, max_len + 1):
+            for p in ((a, b), (b, a)):
+                if p not in pairs:
+                    pairs.append(p)
+    for kind in LENGTH_BLOCKS:
+        for place in LENGTH_PLACEMENTS:
+            for l1, l2 in pairs:
+                inst.reset()
+                blk = block(kind, l1, l2)
+                if place == "in_forever":
+                    body = [A.Forever([blk])]
+                elif place == "in_forever_after_op":
+                    body = [A.Forever(ops(1) + [blk])]
+                elif place == "before_forever":
+                    body = [blk, A.Forever(ops(1))]
+                elif place == "in_while_in_forever":
+                    body = [A.Forever([A.While(False, inst.cond(), [blk])] + ops(1))]
+                elif place == "in_if_in_forever":
+                    body = [A.Forever([A.If([A.IfBranch(False, [inst.cond()], [blk])], None)] + ops(1))]
+                elif place == "after_forever_with_break":
+                    body = [A.Forever(ops(1) + [A.If([A.IfBranch(False, [inst.cond()], [A.Ctrl("break_loop")])], None)]), blk,
+                            A.Op(inst.op("after"), [])]
+                elif place == "in_forever_with_break":
+                    body = [A.Forever([blk, A.If([A.IfBranch(True, [inst.cond()], [A.Ctrl("break_loop")])], None)]),
+                            A.Op(inst.op("after"), [])]
+                elif place == "in_while":
+                    body = [A.While(False, inst.cond(), [blk]), A.Op(inst.op("after"), [])]
+                elif place == "before_while":
+                    body = [blk, A.While(True, inst.cond(), ops(1)), A.Op(inst.op("after"), [])]
+                else:
+                    body = [A.For(A.Op(inst.op("init"), []), inst.cond(), A.Op(inst.op("incr"), []), [blk]), A.Op(inst.op("after"), [])]
+                yield ("lengths", kind, place, l1, l2), A.Program([A.Routine("def", 0, body)])
+
+
+SWITCH_BODIES = ("break", "op_break", "op_return", "jump_x", "op_jump_x", "fall", "op_fall")
+
+
+def switch_programs(seed=0, compatible_cases=True, big=False):
+    """G-switch: every switch with 3 cases (big: also 4 cases over 5 body kinds) x every body kind per case (only break,
+    op + break, op + return, only a jump to a label behind the switch, op + such a jump, empty = falls through, op that falls
+    through) x default (none / op + break at the end / grouped with the last case), followed by an op, the label, an op and a
+    terminator.  Non-adjacent cases with the same target, cases that leave the routine (no common end) and shared jump targets
+    are what the decompiler's case grouping and its switch writer have to tell apart."""
+    inst = Instantiator(seed, compatible_cases)
+
+    def mk(kind):
+        if kind == "break":
+            return [A.Ctrl("break")]
+        if kind == "op_break":
+            return [A.Op(inst.op(), []), A.Ctrl("break")]
+        if kind == "op_return":
+            return [A.Op(inst.op(), []), A.Ctrl("return")]
+        if kind == "jump_x":
+            return [A.Jump("X")]
+        if kind == "op_jump_x":
+            return [A.Op(inst.op(), []), A.Jump("X")]
+        if kind == "fall":
+            return []
+        return [A.Op(inst.op(), [])]
+    plans = [(3, SWITCH_BODIES)]
+    if big:
+        plans.append((4, ("break", "op_break", "op_return", "jump_x", "op_fall")))
+    for ncases, kinds_alpha in plans:
+        for kinds in itertools.product(kinds_alpha, repeat=ncases):
+            for default in ("none", "last", "grouped"):
+                inst.reset()
+                items = []
+                for ci, kd in enumerate(kinds):
+                    if default == "grouped" and ci == ncases - 1:
+                        items.append(A.SwitchItem(inst.case_header(), []))
+                        items.append(A.SwitchItem(None, mk(kd)))
+                    else:
+                        items.append(A.SwitchItem(inst.case_header(), mk(kd)))
+                if default == "last":
+                    items.append(A.SwitchItem(None, [A.Op(inst.op("dflt"), []), A.Ctrl("break")]))
+                body = [A.Op(inst.op("before"), []), A.Switch(inst.switch_header(), items), A.Op(inst.op("between"), []),
+                        A.Label("X"), A.Op(inst.op("after"), []), A.Ctrl("hold")]
+                yield ("switches", kinds, default), A.Program([A.Routine("def", 0, body)])
